@@ -23,6 +23,7 @@ import time
 from rvlib import *  # noqa
 import batch as B
 import astgrammars as AG
+import gtext as GT
 from common import TRUSTED_BASE
 
 LEVEL = "other"
@@ -114,6 +115,120 @@ def error_key(bt, it):
     if code == "no-code":
         code = "syntax" if "expected" in msg else "nocode"
     return "rustc-%s-%s" % (code, site.replace("/", "-")), site
+
+
+# --------------------------------------------------------------------- known-finding classes
+# A recorded finding is identified by its key AND by a predicate on the failing grammar/settings (the class the
+# recorded defect lives in). The same rustc diagnostic on a grammar outside the class gets the key suffix
+# "-outside-known-class" and is reported as a violation.
+RUST_STD_SHADOW = {"String", "Option", "Vec", "Box"}
+
+
+def _rules_named(pg, names):
+    return any(n in names for n in pg.rule_names)
+
+
+def _terms_named(pg, names):
+    return any(n in names for n in pg.terminals)
+
+
+def _assign_named(pg, names):
+    return any(r.name in names for _, _, alts in pg.rules for a in alts for r in a.refs if r.name)
+
+
+def _dup_kind(pg, st):
+    for _, _, alts in pg.rules:
+        ks = [a.kind for a in alts if a.kind]
+        if len(ks) != len(set(ks)):
+            return True
+    return False
+
+
+def _dedup_collision(pg, st):
+    """choice names: N occurs twice and N<digits> occurs too (Model/Names.v prefix_clash_b)"""
+    for _, _, alts in pg.rules:
+        names = []
+        for a in alts:
+            rc = [r for r in a.refs if pg.has_content(r.sym)]
+            if a.kind:
+                names.append(a.kind)
+            elif len(rc) == 1 and rc[0].name is None:
+                names.append(rc[0].sym)
+            elif not rc and len(a.refs) == 1:
+                names.append(a.refs[0].sym)
+        for n in set(names):
+            if names.count(n) > 1 and any(m != n and m.startswith(n) and m[len(n):].isdigit() for m in names):
+                return True
+    return False
+
+
+def _kind_is_rule_name(pg, st):
+    kinds = {a.kind for _, _, alts in pg.rules for a in alts if a.kind}
+    return any(k in pg.rule_names for k in kinds)
+
+
+def _field_name_collision(pg, st):
+    for _, _, alts in pg.rules:
+        for a in alts:
+            auto = [GT.snake(r.sym) for r in a.refs if r.name is None and pg.has_content(r.sym)]
+            if any(r.name in auto or r.name in ("_ctx", "ctx", "context") for r in a.refs if r.name):
+                return True
+    return False
+
+
+def _self_recursive_optional_ref(pg, st):
+    """X: <no-content symbols> X <no-content symbols> | EMPTY   (an optional alias of itself)"""
+    for name, _, alts in pg.rules:
+        if not any(not a.refs for a in alts):
+            continue
+        rest = [a for a in alts if a.refs]
+        if len(rest) == 1:
+            rc = [r for r in rest[0].refs if pg.has_content(r.sym)]
+            if len(rc) == 1 and rc[0].sym == name and rc[0].op == "":
+                return True
+    return False
+
+
+def _glr_default_nullable_tail(pg, st):
+    if st.get("algo") != "GLR" or st.get("builder") != "default":
+        return False
+    nl = pg.nullable()
+    for _, _, alts in pg.rules:
+        for a in alts:
+            if len(a.refs) >= 2 and (a.refs[-1].sym in nl or a.refs[-1].op in ("*", "?")):
+                return True
+    return False
+
+
+KNOWN_CLASSES = {
+    "rustc-E0428-parser-enum-ProdKind": _dup_kind,
+    "rustc-E0428-actions-fn": _dedup_collision,
+    "rustc-E0428-actions-struct": _kind_is_rule_name,
+    "rustc-E0428-actions-type": _kind_is_rule_name,
+    "rustc-E0415-actions-fn": _field_name_collision,
+    "rustc-E0391-actions-type": lambda pg, st: _self_recursive_optional_ref(pg, st) or _terms_named(pg, {"String"}),
+    "rustc-E0308-parser-impl-LRBuilder-DefaultBuilder.reduce_action": _glr_default_nullable_tail,
+    "rustc-E0255-actions-type": lambda pg, st: st.get("loc") and _rules_named(pg, {"C", "ValSpan", "Context", "TokenKind"}),
+    "rustc-E0255-actions-struct": lambda pg, st: _rules_named(pg, {"Context", "TokenKind"}),
+    "rustc-E0106-parser-enum-NonTerminal": lambda pg, st: _rules_named(pg, {"Ctx", "Token"}),
+    "rustc-E0106-parser-enum-Terminal": lambda pg, st: _terms_named(pg, {"Ctx", "Token"}),
+    "rustc-E0277-parser-enum-NonTerminal": lambda pg, st: _rules_named(pg, {"Input"}),
+    "rustc-E0277-parser-enum-Terminal": lambda pg, st: _terms_named(pg, {"Input"}),
+    "rustc-E0072-actions-struct": lambda pg, st: _rules_named(pg, {"String"}),
+    "rustc-E0107-actions-type": lambda pg, st: _rules_named(pg, {"Option", "Vec"}),
+    "rustc-syntax-actions-struct": lambda pg, st: _assign_named(pg, {"dyn", "async"}),
+}
+
+
+def classify_known(key, grammar, settings):
+    cls = KNOWN_CLASSES.get(key)
+    if cls is None:
+        return key
+    try:
+        inside = bool(cls(GT.PGrammar(grammar), settings))
+    except Exception:
+        inside = False
+    return key if inside else key + "-outside-known-class"
 
 
 # --------------------------------------------------------------------- Model/Names.v  vs  the generated enums
@@ -307,6 +422,7 @@ def run(rep, tier, seed):
             continue
         if it.rustc_errors:
             key, site = error_key(bt, it)
+            key = classify_known(key, it.grammar, it.settings)
             code, msg, fname, line, rendered = canonical_error(it)
             findings.setdefault(key, []).append(dict(base, rustc_code=code, rustc_message=msg, site=site,
                                                      file=fname, line=line, rendered=rendered,
